@@ -727,19 +727,12 @@ fn c18(args: &Args) -> ! {
     let b_addr = format!("unix:{}/svcb", d.display());
     let _sa = spawn_service(&a_addr, "org.verif.a");
     let _sb = spawn_service(&b_addr, "org.verif.b");
-    // proxy.rs hard-codes this address for GetInfo and for the resolver interface itself
-    let hard = "unix:/run/org.varlink.resolver";
-    // the hard-coded path can be served by one process only: all resolver-mode cases run in shard 0
-    let resolver_ok = args.shard == 0 && replay.as_ref().map(|r| r["mode"] == "resolver").unwrap_or(true) && (!Path::new("/run/org.varlink.resolver").exists() || varlink::varlink_connect(hard).is_err());
-    let _res = if resolver_ok {
-        let _ = std::fs::remove_file("/run/org.varlink.resolver");
-        Some(spawn_resolver(hard, &[("org.verif.a".to_string(), a_addr.clone()), ("org.verif.b".to_string(), b_addr.clone())]))
-    } else {
-        if args.shard == 0 && replay.is_none() {
-            rep.notes.push("/run/org.varlink.resolver is in use by somebody else: resolver mode skipped".into());
-        }
-        None
-    };
+    // the resolver lives at a private address given with -R: service-info queries must be answered by *that* resolver
+    // (nothing may depend on the default address unix:/run/org.varlink.resolver)
+    let hard_owned = format!("unix:{}/resolver", d.display());
+    let hard = hard_owned.as_str();
+    let resolver_ok = replay.as_ref().map(|r| r["mode"] == "resolver").unwrap_or(true);
+    let _res = if resolver_ok { Some(spawn_resolver(hard, &[("org.verif.a".to_string(), a_addr.clone()), ("org.verif.b".to_string(), b_addr.clone())])) } else { None };
     let letters: Vec<(&str, Value)> = vec![
         ("echo-a", json!({"method": "org.verif.a.Echo", "parameters": {"v": "A"}})),
         ("echo-b", json!({"method": "org.verif.b.Echo", "parameters": {"v": "B"}})),
@@ -789,7 +782,7 @@ fn c18(args: &Args) -> ! {
                         continue;
                     }
                 } else {
-                    let mine = if *mname == "resolver" { args.shard == 0 } else if args.nshards > 1 { args.shard != 0 && (idx % (args.nshards as u64 - 1)) as usize == args.shard - 1 } else { true };
+                    let mine = args.mine(idx);
                     if !mine || (!args.thorough() && s.len() == 2 && pipelined && idx % 2 == 0) {
                         continue;
                     }
@@ -874,7 +867,7 @@ fn c18(args: &Args) -> ! {
         {
             idx += 1;
             let case = json!({"mode": mname, "burst": "sleep+500x1KiB"});
-            let mine = if let Some(r) = &replay { *r == case } else if *mname == "resolver" { args.shard == 0 } else if args.nshards > 1 { args.shard != 0 && (idx % (args.nshards as u64 - 1)) as usize == args.shard - 1 } else { true };
+            let mine = if let Some(r) = &replay { *r == case } else { args.mine(idx) };
             if mine {
                 rep.eval(Some(&case.to_string()));
                 let pad = "p".repeat(1000);
@@ -949,7 +942,7 @@ fn c18(args: &Args) -> ! {
                     continue;
                 }
             } else {
-                let mine = if *mname == "resolver" { args.shard == 0 } else if args.nshards > 1 { args.shard != 0 && (idx % (args.nshards as u64 - 1)) as usize == args.shard - 1 } else { true };
+                let mine = args.mine(idx);
                 if !mine {
                     continue;
                 }
